@@ -1,10 +1,295 @@
 import CueVerif.Driver.Proto
-namespace CueVerif.Driver.C18
-open CueVerif CueVerif.Driver
+import CueVerif.Spec.Flow
+/-!
+Line protocol for C18 (tools/flow).
 
-/-- protocol handler for C18: words of one op line (after the property id) → answer -/
+  run   <tasks> <aux> <guards>   outcome of the described workflow when no task fails:
+                                 "ok <terminated ids> inst=<ids>" | "cycle" | "deadlock"
+  deps  <tasks> <aux> <guards>   dependency edges the description denotes (`specDeps`)
+  depsx <tasks> <aux> <guards>   the same (compared with ALL discovered edges, I-level)
+  trace <events>                 replay a recorded history of the real controller against the
+                                 model: every observed event must be enabled in the model,
+                                 every UpdateFunc snapshot must equal the model's task states
+                                 and dependency sets; answers "ok <kind> <states> inst=<ids>"
+
+Workflow text: tasks `;`-separated, each `<group|->:<refs|->`, refs `,`-separated
+`t<i>` | `a<j>` | `g<j>`; aux fields `;`-separated ref lists; guards `,`-separated.
+-/
+namespace CueVerif.Driver.C18
+open CueVerif CueVerif.Driver CueVerif.Flow
+
+def insertNat (x : Nat) : List Nat → List Nat
+  | [] => [x]
+  | y :: ys => if x ≤ y then x :: y :: ys else y :: insertNat x ys
+
+def sortNat (xs : List Nat) : List Nat := xs.foldr insertNat []
+
+def natsStr (xs : List Nat) : String :=
+  if xs.isEmpty then "-" else ",".intercalate ((sortNat xs).map toString)
+
+/-- Re-tabulate the task table (performance only: the model keeps `tasks` as a function and
+every step wraps it in another closure).  Extensionally the identity on every state in
+which tasks beyond `n` are pristine — which `Inv.fresh` proves for all reachable states. -/
+def norm (s : Ctl) : Ctl :=
+  let arr := ((List.range s.n).map s.tasks).toArray
+  { s with tasks := fun i => arr.getD i {} }
+
+/-! ### workflow descriptions -/
+
+def parseRef (s : String) : Option Ref :=
+  match s.toList with
+  | 't' :: r => (String.ofList r).toNat?.map Ref.task
+  | 'a' :: r => (String.ofList r).toNat?.map Ref.aux
+  | 'g' :: r => (String.ofList r).toNat?.map Ref.grp
+  | _ => none
+
+def parseRefs (s : String) : Option (List Ref) :=
+  if s == "-" then some [] else (s.splitOn ",").mapM parseRef
+
+def parseTask (s : String) : Option TaskDecl :=
+  match s.splitOn ":" with
+  | [g, rs] => do
+    let refs ← parseRefs rs
+    if g == "-" then pure { group := none, refs := refs }
+    else do let j ← g.toNat?; pure { group := some j, refs := refs }
+  | _ => none
+
+def parseWF (ts as gs : String) : Option Workflow := do
+  let tasks ← if ts == "-" then some [] else (ts.splitOn ";").mapM parseTask
+  let aux ← if as == "-" then some [] else (as.splitOn ";").mapM parseRefs
+  let guards ← natList? gs
+  pure { tasks := tasks, aux := aux, guards := guards }
+
+def edgesStr (es : List (Nat × List Nat)) : String :=
+  let parts := (es.filter (fun e => !e.2.isEmpty)).map fun e => s!"{e.1}>{natsStr e.2}"
+  if parts.isEmpty then "-" else ";".intercalate parts
+
+def specEdges (w : Workflow) : String :=
+  edgesStr ((List.range w.tasks.length).map fun i => (i, specDeps w i))
+
+def discEdges (w : Workflow) : String :=
+  edgesStr ((List.range w.tasks.length).map fun i => (i, discDeps w i))
+
+/-! ### simulated run of a described workflow (no failure) -/
+
+def posOf (idx : List Nat) (id : Nat) : Option Nat :=
+  let rec go (l : List Nat) (k : Nat) : Option Nat :=
+    match l with
+    | [] => none
+    | x :: xs => if x = id then some k else go xs (k + 1)
+  go idx 0
+
+/-- all denoted edges between present tasks, in model indices -/
+def presentEdges (w : Workflow) (idx : List Nat) : List (Nat × Nat) :=
+  (List.range idx.length).flatMap fun k =>
+    match idx[k]? with
+    | some i => (specDeps w i).filterMap fun d => (posOf idx d).map fun p => (k, p)
+    | none => []
+
+def firstRunning (s : Ctl) : Option Nat :=
+  (List.range s.n).find? fun i => (s.tasks i).state = .running
+
+def simulate (w : Workflow) : Nat → Ctl → List Nat → Ctl × List Nat
+  | 0, s, idx => (s, idx)
+  | fuel + 1, s, idx =>
+    if s.stopped then (s, idx) else
+    match firstRunning s with
+    | none => (s, idx)
+    | some k =>
+      let id := idx.getD k 0
+      let newIds := (List.range w.tasks.length).filter fun i =>
+        !(idx.contains i) &&
+        (match w.tasks[i]? with
+         | some d => (match d.group with
+            | some j => w.guards[j]? == some id
+            | none => false)
+         | none => false)
+      let idx' := idx ++ newIds
+      let g : Growth := { newTasks := newIds.length, newDeps := presentEdges w idx' }
+      simulate w fuel (norm (onComplete s k true true g)) idx'
+
+def stateChar : TState → Char
+  | .waiting => 'w' | .ready => 'r' | .running => 'x' | .terminated => 't'
+
+def runAnswer (w : Workflow) : String :=
+  let idx0 := (List.range w.tasks.length).filter fun i =>
+    match w.tasks[i]? with | some d => d.group.isNone | none => false
+  let s0 := norm (start (new { newTasks := idx0.length, newDeps := presentEdges w idx0 }))
+  let (s, idx) := simulate w (w.tasks.length + 2) s0 idx0
+  -- the outcome the specification prescribes: a cycle among the tasks that would exist
+  let ex := w.existing
+  let specCyclic := checkCycle w.tasks.length (fun i => if ex.contains i then (specDeps w i).filter ex.contains else [])
+  let ans :=
+    if s.deadlock then "deadlock"
+    else if s.errs then "cycle"
+    else if !s.stopped then "fuel"
+    else
+      let term := (List.range s.n).filter fun k => (s.tasks k).state = .terminated
+      "ok " ++ natsStr (term.map fun k => idx.getD k 0) ++ " inst=" ++ natsStr (s.inst.map fun k => idx.getD k 0)
+  if (ans == "cycle") != specCyclic then "model-inconsistent " ++ ans else ans
+
+/-! ### trace replay -/
+
+structure Snap where
+  states : List Char
+  deps : List (List Nat)
+
+def parseSnapTask (s : String) : Option (Char × List Nat) :=
+  match s.toList with
+  | [] => none
+  | c :: r =>
+    let rs := String.ofList r
+    if rs.isEmpty then some (c, []) else
+      ((rs.splitOn "+").mapM (fun (x : String) => x.toNat?)).map fun ds => (c, ds)
+
+def parseSnap (s : String) : Option Snap :=
+  if s == "-" then some ⟨[], []⟩ else do
+    let ts ← (s.splitOn ",").mapM parseSnapTask
+    pure ⟨ts.map (·.1), ts.map (·.2)⟩
+
+structure Rep where
+  ctl : Ctl := {}
+  started : Bool := false
+  startedTasks : List Nat := []
+  ended : List (Nat × Bool × Bool) := []
+  recvd : List Nat := []
+  final : Option String := none
+
+/-- task states as `markReady` left them: tasks dispatched at clock ≥ `since` were Ready -/
+def statesAtMark (s : Ctl) (since : Nat) : List Char :=
+  (List.range s.n).map fun i =>
+    let t := s.tasks i
+    let recent : Bool := match t.startAt with
+      | some k => decide (since ≤ k)
+      | none => false
+    if t.state = .running ∧ recent = true then 'r' else stateChar t.state
+
+def depsOfCtl (s : Ctl) : List (List Nat) :=
+  (List.range s.n).map fun i => sortNat (s.tasks i).deps
+
+def snapMatches (s : Ctl) (since : Nat) (sn : Snap) : Bool :=
+  statesAtMark s since == sn.states && depsOfCtl s == sn.deps.map sortNat
+
+def growthOf (s : Ctl) (sn : Snap) : Growth :=
+  { newTasks := sn.states.length - s.n,
+    newDeps := (List.range sn.deps.length).flatMap fun i =>
+      ((sn.deps.getD i []).filter fun d => !((s.tasks i).deps.contains d)).map fun d => (i, d) }
+
+def finalAnswer (kind : String) (s : Ctl) : String :=
+  s!"ok {kind} {String.ofList ((List.range s.n).map fun i => stateChar (s.tasks i).state)} inst={natsStr s.inst}"
+
+def splitEv (e : String) : Option (Char × String × String) :=
+  match e.toList with
+  | [] => none
+  | k :: rest =>
+    match (String.ofList rest).splitOn ":" with
+    | [a, b] => some (k, a, b)
+    | _ => none
+
+def stepEv (r : Rep) (e : String) : Except String Rep :=
+  match splitEv e with
+  | none => .error s!"bad-event {e}"
+  | some (k, a, b) =>
+    if r.final.isSome then .error s!"event-after-return {e}" else
+    match k with
+    | 'U' =>
+      match parseSnap b with
+      | none => .error s!"bad-snapshot {e}"
+      | some sn =>
+        if a == "-" then
+          if r.started then .error "second-init" else
+          let g : Growth := { newTasks := sn.states.length,
+                              newDeps := (List.range sn.deps.length).flatMap fun i => (sn.deps.getD i []).map fun d => (i, d) }
+          let s := norm (start (new g))
+          if snapMatches s 0 sn then .ok { r with ctl := s, started := true }
+          else .error s!"init-snapshot-mismatch model={String.ofList (statesAtMark s 0)}"
+        else
+          match a.toNat? with
+          | none => .error s!"bad-event {e}"
+          | some t =>
+            let s := r.ctl
+            if !r.started then .error "update-before-init"
+            else if s.stopped then .error s!"update-after-stop {t}"
+            else if !(t < s.n ∧ (s.tasks t).state = .running) then .error s!"completion-of-non-running {t}"
+            else if r.recvd.contains t then .error s!"completion-twice {t}"
+            else match r.ended.find? (fun x => x.1 == t) with
+              | none => .error s!"completion-before-runner-end {t}"
+              | some (_, ok, fill) =>
+                if !ok then .error s!"update-after-failure {t}"
+                else
+                  let s' := norm (onComplete s t true fill (growthOf s sn))
+                  if snapMatches s' (s.clock + 1) sn then .ok { r with ctl := s', recvd := t :: r.recvd }
+                  else .error s!"snapshot-mismatch after {t} model={String.ofList (statesAtMark s' (s.clock + 1))}"
+    | 'S' =>
+      match a.toNat? with
+      | none => .error s!"bad-event {e}"
+      | some t =>
+        let s := r.ctl
+        if !(r.started ∧ t < s.n ∧ (s.tasks t).state = .running) then .error s!"start-without-dispatch {t}"
+        else if r.startedTasks.contains t then .error s!"started-twice {t}"
+        else if b != "1" then .error s!"stale-input {t}"
+        else .ok { r with startedTasks := t :: r.startedTasks }
+    | 'E' =>
+      match a.toNat? with
+      | none => .error s!"bad-event {e}"
+      | some t =>
+        if !(r.startedTasks.contains t) then .error s!"end-without-start {t}"
+        else if (r.ended.any fun x => x.1 == t) then .error s!"ended-twice {t}"
+        else .ok { r with ended := (t, b.startsWith "1", b.endsWith "1") :: r.ended }
+    | 'R' =>
+      match parseSnap b with
+      | none => .error s!"bad-snapshot {e}"
+      | some sn =>
+        let s := r.ctl
+        if !r.started then .error "return-before-init" else
+        let fin (s' : Ctl) : Except String Rep :=
+          if String.ofList ((List.range s'.n).map fun i => stateChar (s'.tasks i).state) == String.ofList sn.states
+              && depsOfCtl s' == sn.deps.map sortNat
+          then .ok { r with ctl := s', final := some (finalAnswer a s') }
+          else .error s!"final-mismatch {a} model={String.ofList ((List.range s'.n).map fun i => stateChar (s'.tasks i).state)}"
+        if a == "ok" then
+          if s.stopped ∧ !s.errs ∧ !s.cancelled then fin s else .error "returned-ok-but-model-not-finished"
+        else if a == "cycle" then
+          if s.stopped ∧ s.errs ∧ !s.deadlock then fin s else .error "returned-cycle-but-model-has-none"
+        else if a == "fail" then
+          -- the failed completion is the one the controller received last
+          match r.ended.find? (fun x => !x.2.1 && !(r.recvd.contains x.1)) with
+          | none => .error "returned-failure-without-failed-runner"
+          | some (t, _, fill) =>
+            if s.stopped then .error "failure-after-stop"
+            else if !(t < s.n ∧ (s.tasks t).state = .running) then .error s!"failure-of-non-running {t}"
+            else fin (norm (onComplete s t false fill {}))
+        else if a == "cancel" then
+          if s.stopped then fin s else fin { s with stopped := true, cancelled := true }
+        else .error s!"returned-{a}"
+    | _ => .error s!"bad-event {e}"
+
+def replay (evs : List String) : String :=
+  let rec go (r : Rep) : List String → String
+    | [] => match r.final with
+      | some a => a
+      | none => "no-return-event"
+    | e :: es =>
+      match stepEv r e with
+      | .ok r' => go r' es
+      | .error m => m
+  go {} evs
+
 def handle (ws : List String) : String :=
   match ws with
+  | ["run", ts, as, gs] =>
+    match parseWF ts as gs with
+    | some w => runAnswer w
+    | none => "bad-op"
+  | ["deps", ts, as, gs] =>
+    match parseWF ts as gs with
+    | some w => specEdges w
+    | none => "bad-op"
+  | ["depsx", ts, as, gs] =>
+    match parseWF ts as gs with
+    | some w => discEdges w
+    | none => "bad-op"
+  | ["trace", evs] => replay (evs.splitOn ";")
   | _ => "bad-op"
 
 end CueVerif.Driver.C18
